@@ -776,6 +776,23 @@ func alike(t *rapid.T, v val.V) val.V {
 		}
 		return val.S(v.S)
 	case val.Bytes:
+		// a byte that prints as an escape \xHL next to the two bytes 0x0H and the character L (an escape printed
+		// without padding would run into the following hex digit)
+		if b := v.RawBytes(); pick == 2 || !utf8.Valid(b) {
+			var idx []int
+			for i, x := range b {
+				if x < 0x20 || x >= 0x7f {
+					idx = append(idx, i)
+				}
+			}
+			if len(idx) > 0 {
+				i := idx[rapid.IntRange(0, len(idx)-1).Draw(t, "escapedByte")]
+				out := append([]byte{}, b[:i]...)
+				out = append(out, b[i]>>4, "0123456789abcdef"[b[i]&15])
+				out = append(out, b[i+1:]...)
+				return val.B(out)
+			}
+		}
 		if b := v.RawBytes(); utf8.Valid(b) {
 			return val.S(string(b))
 		}
